@@ -9,6 +9,7 @@ case "$D" in "$VERIF"/seeded/*) ;; *)  # a fresh seed from a seeding agent: adop
   N="$VERIF/seeded/$P-$(basename "$D")"; mkdir -p "$N"; cp "$D/patch.diff" "$D/demo.py" "$D/meta.json" "$N/"; D="$N";
   python3 -c "import json;p='$D/meta.json';m=json.load(open(p));m['breaks_property']=m.get('breaks_property') or m['property'];json.dump(m,open(p,'w'),indent=1)";;
 esac
+if python3 -c "import json,sys;sys.exit(0 if json.load(open('$D/meta.json')).get('obsolete') else 1)"; then echo "$(basename $D): obsolete (see meta.json) - skipped"; exit 0; fi
 WT=$(mktemp -d /tmp/evalseedwt.XXXXXX); rmdir "$WT"
 git -C /repo worktree add --detach "$WT" HEAD -q || exit 9
 trap 'git -C /repo worktree remove --force "$WT" >/dev/null 2>&1; rm -f /tmp/evalseed_$$_*.log' EXIT
